@@ -9,6 +9,7 @@
 from __future__ import annotations
 
 import ast
+import os
 
 from .. import core
 from ..skq import Lib, D, Dn, where, val, SVC, M, pm, calls, kw
@@ -178,6 +179,15 @@ def check_table(report, lib: Lib, tname, label, retry_cls, wrapper):
                                     f"{slot}= must be emitted exactly when {guard_atom} is set")
                     else:
                         r.check(present, *w, f"{slot}= missing", f"{slot}= (overall retry deadline) must always be passed")
+                    if present and guard_atom is not None:
+                        # C09.2g (seed C09e): the slot's own guard is the ONLY condition between the Retry(...) call and the keyword -
+                        # nested under a sibling slot's guard it silently disappears for policies that lack the sibling
+                        seg, vseg = sk.seg_of_node(rk[slot]), sk.seg_of_node(rc)
+                        extra_g = [g for g in seg.guards[len(vseg.guards):] if g[0] != "loop" and guard_atom not in str(g)]
+                        if os.environ.get("VERIF_DEBUG_C09"):
+                            print("C09.2g", slot, seg.guards[len(vseg.guards):])
+                        r.check(not extra_g, *w, f"{slot}= additionally guarded by {extra_g}",
+                                f"{slot}= must depend on {guard_atom} alone; under another slot's guard it is dropped for policies without that slot")
                     if present:
                         r.check(D(sk, rk[slot]) == "{" + acc + "}", *w, f"{slot}={D(sk, rk[slot])}", f"{slot}= must be fed from {acc}")
                 extra = set(rk) - set(SLOT_TABLE) - {"predicate"}
